@@ -1047,6 +1047,31 @@ func reElection() (viol string, trace []string, note string) {
 	if hbx(stale) == nil {
 		return "C06:stale-heartbeat-accepted", trace, ""
 	}
+	// read requests through the RPC layer (pd client / BR / Lightning) leave what is served as it is: ScanRegions with a start key
+	// inside the first region, with an empty end key and a limit that stops before the last region, with explicit end keys
+	snap := func() string {
+		var b strings.Builder
+		for _, ri := range x.S.GetRaftCluster().ScanRegions(nil, nil, 0) {
+			fmt.Fprintf(&b, "%d[%q,%q)v%d ", ri.GetID(), ri.GetStartKey(), ri.GetEndKey(), ri.GetRegionEpoch().GetVersion())
+		}
+		return b.String()
+	}
+	before := snap()
+	for _, q := range []struct {
+		s, e string
+		lim  int32
+	}{{"c", "", 1}, {"", "", 1}, {"c", "x", 0}, {"n", "", 0}, {"", "f", 5}} {
+		resp, err := x.S.ScanRegions(context.Background(), &pdpb.ScanRegionsRequest{Header: x.Header(), StartKey: []byte(q.s), EndKey: []byte(q.e), Limit: q.lim})
+		trace = append(trace, fmt.Sprintf("ScanRegions RPC start %q end %q limit %d -> %d regions, err %v", q.s, q.e, q.lim, len(resp.GetRegionMetas()), err))
+		if after := snap(); after != before {
+			return "C06:read-request-changed-the-served-regions", append(trace, "served before the request: "+before+"; after it: "+after), ""
+		}
+		for _, m := range resp.GetRegionMetas() { // the answer shows the regions as they are served
+			if g := x.S.GetRaftCluster().GetRegion(m.GetId()); g == nil || string(g.GetStartKey()) != string(m.GetStartKey()) || string(g.GetEndKey()) != string(m.GetEndKey()) {
+				return "C06:scan-rpc-answers-a-region-that-is-not-served", append(trace, fmt.Sprintf("answer has region %d [%q,%q)", m.GetId(), m.GetStartKey(), m.GetEndKey())), ""
+			}
+		}
+	}
 	if err := x.S.GetStorage().Flush(); err != nil {
 		return "", trace, "flush failed: " + err.Error()
 	}
